@@ -70,6 +70,9 @@ func errClass(err error) string {
 	return "other:" + err.Error()
 }
 
+// c09Arena is the long-lived backing array of the server's key slice (see drive).
+var c09Arena = make([]ech.Key, 16)
+
 func drive(keys []*hello.Key, stream []byte, hrr []byte) connOutcome {
 	var o connOutcome
 	tr := wire.New(stream, io.EOF)
@@ -78,7 +81,12 @@ func drive(keys []*hello.Key, stream []byte, hrr []byte) connOutcome {
 	// application keeps using for its other connections
 	all := echKeys(keys...)
 	split := (len(all) + 1) / 2
-	base := make([]ech.Key, split, split+3)
+	// the application keeps ONE long-lived key slice and replaces its elements in place when
+	// keys rotate: every call here reuses the same backing array for whatever list it is given
+	for i := range c09Arena {
+		c09Arena[i] = ech.Key{}
+	}
+	base := c09Arena[:split : split+3]
 	copy(base, all[:split])
 	var c *ech.Conn
 	err := guard(func() error {
